@@ -351,6 +351,17 @@ def r3(R):
           and a.value.func.attr == "split" and src(a.value.func.value) == "line"]
     ok = len(sp) == 1 and isinstance(sp[0].targets[0], (ast.List, ast.Tuple)) and len(sp[0].targets[0].elts) == 2 \
         and (not sp[0].value.args or src(sp[0].value.args[0]) in ("' '", '" "'))
+    if not ok and len(sp) == 1 and isinstance(sp[0].targets[0], ast.Name) and (not sp[0].value.args or src(sp[0].value.args[0]) in ("' '", '" "')):
+        # the same with a named list: fields = line.split(' '); the store self.parameters[<from fields[0]>] = fields[1] runs only
+        # where len(fields) == 2
+        F = sp[0].targets[0].id
+        rcfg = pyfacts.PyCFG(rd)
+        st = [a for a in ast.walk(rd) if isinstance(a, ast.Assign) and isinstance(a.targets[0], ast.Subscript) and src(a.targets[0].value) == "self.parameters"]
+        if len(st) == 1 and rcfg.node_of(st[0]) is not None:
+            atoms = pyfacts.guard_atoms(rcfg.guards(rcfg.node_of(st[0])))
+            val = pyfacts.resolved_src(rd, st[0].value, 3, keep=(F, "self")).replace(" ", "")
+            key = pyfacts.resolved_src(rd, st[0].targets[0].slice, 3, keep=(F, "self")).replace(" ", "")
+            ok = ("len(%s)==2" % F, True) in atoms and val == "%s[1]" % F and key.startswith("%s[0]" % F)
     R.check(ok, "C18.R3", PAR, rd.lineno, "parameters.loadparameters", "[name, value] = line.split(' ')", "reader no longer splits a line into exactly name and value")
     cfg = pyfacts.PyCFG(rd)
     calls = [s for s in ast.walk(rd) if isinstance(s, ast.Expr) and isinstance(s.value, ast.Call) and pyfacts.dotted(s.value.func) == "self.dumbtypecheck"]
